@@ -265,6 +265,9 @@ def gen_fail(g, probe, rel):
             "(assert (=> %s))" % good,
             "(assert %s) (pop 3" % good,
             "(set-logic QF_LRA) (assert %s) (assert (< 1 true))" % good,
+            # a script that sets a logic and defines a name before it fails: neither is there for the next script
+            "(set-logic QF_LRA) (define-fun c15d () Real 5.0) (assert %s) (assert (frob c15d))" % good,
+            "(set-logic QF_RDL) (declare-fun c15e () Real) (define-fun c15d () Real c15e) (assert (and %s" % good,
         ])
         return ("smtlib-parse", decl + "\n" + bad + "\n")
     if kind == "model-text":
@@ -411,37 +414,45 @@ def _check_history(run, probe, history, probes, ptexts):
     if outs[0] != outs[1]:
         run.fail({"subcheck": "trace:result-differs", "service": "get_symbol", "after": sorted(set(kinds))[0]}, case,
                  "get_symbol / Symbol(%r, BV3): %s after failing calls %s, %s on the twin" % (DECL_NAME, outs[0], sorted(set(kinds)), outs[1]))
-    # get-model / get-value replies read by the long-lived parser (before get_script, which resets the parser)
-    for which, text in (("parse_model", "((define-fun |pm b| () Int |zq!|))"), ("parse_model", "((define-fun |pm c| () Int 7))"),
-                        ("answer", "((|zq!| 1))"), ("parse_model", "((define-fun |pm g| ((a Int)) Int (+ a 1)))")):
-        outs = []
-        for W in (A, Bw):
-            with W.env:
-                try:
-                    r_ = W.parser.parse_model(StringIO(text)) if which == "parse_model" else W.parser.get_assignment_list(StringIO(text))
-                    if which == "parse_model":
-                        r_ = (sorted((str(k), str(v)) for k, v in r_[0].items()),
-                              sorted((str(k), [str(x) for x in fi.formal_params], str(fi.function_body)) for k, fi in r_[1].items()))
-                    else:
-                        r_ = [(str(a), str(b)) for (a, b) in r_]
-                    import re as _re
-                    outs.append("ok " + _re.sub(r"__(\w+?)\d+", r"__\1#", repr(r_))[:300])      # fresh formal names carry a counter
-                except Exception as e:
-                    outs.append("raised " + type(e).__name__)
-        run.cls("probe:long-lived-parser-replies")
-        if outs[0] != outs[1]:
-            run.fail({"subcheck": "trace:result-differs", "service": "long-lived-parser-replies", "after": sorted(set(kinds))[0]}, case,
-                     "%s(%r) gives %s after failing calls %s, %s on the twin" % (which, text, outs[0], sorted(set(kinds)), outs[1]))
-    for text in ptexts:
-        a, b = parse_probe(A, text), parse_probe(Bw, text)
-        ka = outcome_key(A.env, a)
-        kb = outcome_key(Bw.env, b)
-        run.cls("probe:long-lived-parser")
-        if ka != kb:
-            run.fail({"subcheck": "trace:result-differs", "service": "long-lived-parser", "after": sorted(set(kinds))[0]},
-                     dict(case, failing_text=text),
-                     "the re-used parser reads %r after failing calls %s, %r on the twin\n text=%s" % (
-                         _brief(A.env, a), sorted(set(kinds)), _brief(Bw.env, b), text[:400]))
+    # The two kinds of probes through the long-lived parser each begin by resetting it, which wipes what the other kind is
+    # looking for: their order alternates from case to case
+    def probe_replies():
+        # get-model / get-value replies read by the long-lived parser (before get_script, which resets the parser)
+        for which, text in (("parse_model", "((define-fun |pm b| () Int |zq!|))"), ("parse_model", "((define-fun |pm c| () Int 7))"),
+                            ("answer", "((|zq!| 1))"), ("parse_model", "((define-fun |pm g| ((a Int)) Int (+ a 1)))")):
+            outs = []
+            for W in (A, Bw):
+                with W.env:
+                    try:
+                        r_ = W.parser.parse_model(StringIO(text)) if which == "parse_model" else W.parser.get_assignment_list(StringIO(text))
+                        if which == "parse_model":
+                            r_ = (sorted((str(k), str(v)) for k, v in r_[0].items()),
+                                  sorted((str(k), [str(x) for x in fi.formal_params], str(fi.function_body)) for k, fi in r_[1].items()))
+                        else:
+                            r_ = [(str(a), str(b)) for (a, b) in r_]
+                        import re as _re
+                        outs.append("ok " + _re.sub(r"__(\w+?)\d+", r"__\1#", repr(r_))[:300])      # fresh formal names carry a counter
+                    except Exception as e:
+                        outs.append("raised " + type(e).__name__)
+            run.cls("probe:long-lived-parser-replies")
+            if outs[0] != outs[1]:
+                run.fail({"subcheck": "trace:result-differs", "service": "long-lived-parser-replies", "after": sorted(set(kinds))[0]}, case,
+                         "%s(%r) gives %s after failing calls %s, %s on the twin" % (which, text, outs[0], sorted(set(kinds)), outs[1]))
+
+    def probe_scripts():
+        for text in ptexts:
+            a, b = parse_probe(A, text), parse_probe(Bw, text)
+            ka = outcome_key(A.env, a)
+            kb = outcome_key(Bw.env, b)
+            run.cls("probe:long-lived-parser")
+            if ka != kb:
+                run.fail({"subcheck": "trace:result-differs", "service": "long-lived-parser", "after": sorted(set(kinds))[0]},
+                         dict(case, failing_text=text),
+                         "the re-used parser reads %r after failing calls %s, %r on the twin\n text=%s" % (
+                             _brief(A.env, a), sorted(set(kinds)), _brief(Bw.env, b), text[:400]))
+
+    for fn in ((probe_replies, probe_scripts) if len(history) % 2 else (probe_scripts, probe_replies)):
+        fn()
     # the long-lived DAG printer object: what it prints must read back as the formula, on both sides alike
     try:
         if reftype(probe) == BOOL:
@@ -620,7 +631,10 @@ def gen_case(rnd):
     pb = probe if t == BOOL else const(BOOL, True)
     ptexts = ["\n".join(declarations([pb], w) + ["(assert %s)" % w.term(pb), "(check-sat)"]) + "\n",
               "(declare-fun lv () Int)(declare-fun qv () Int)(declare-fun a () Real)(define-fun df ((a Int)) Bool (> a qv))"
-              "(assert (and (df lv) (< (to_real lv) a)))\n"]
+              "(assert (and (df lv) (< (to_real lv) a)))\n",
+              # numerals are typed by the logic of THIS script (none); names defined by an earlier script are unknown
+              "(declare-fun c15n () Int)(assert (> c15n 1))\n",
+              "(declare-fun c15n () Int)(assert (> c15n c15d))\n"]
     return probe, history, probes, ptexts
 
 
